@@ -90,36 +90,43 @@ def rule_r2(F):
         return r
     b = F.body(ps[0])
     h = b.hir["value"]
-    init = [l for l in hir.nodes(h, "letstmt") if l["pat"].get("k") == "bind" and l["pat"]["name"] == "recurse"]
-    ok_init = bool(init) and hir.strip(init[0]["init"]).get("v") is True
-    r.inst("recurse starts true", {"ok": ok_init})
-    if not ok_init:
-        r.bad(b.path, "recurse init", relfile(b.file), b.line, "the first path segment must be looked up through the enclosing scopes (recurse = true)")
+    ld = hir.LocalDefs(b.hir)
+    pidx = hir.param_index(b.hir)
     loops = list(hir.nodes(h, "loop"))
-    found_false = found_scope = call_ok = False
+    found_false = found_scope = call_ok = ok_init = False
     for lp in loops:
-        calls = [c for c in hir.nodes(lp, "mcall") if c["m"] == "resolve_name"]
+        calls = [c for c in hir.nodes(lp, "mcall") if c["m"] == "resolve_name" and len(c["args"]) == 3]
         if not calls:
             continue
         c = calls[0]
-        call_ok = [sorted(names(a)) for a in c["args"]] == [["scope"], ["ident"], ["recurse"]]
+        # the three arguments, identified by what they are - not by what they are called
+        l_scope = hir.res_local(hir.peel_refs(hir.strip(c["args"][0])))
+        l_ident = hir.res_local(hir.peel_refs(hir.strip(c["args"][1])))
+        l_rec = hir.res_local(hir.peel_refs(hir.strip(c["args"][2])))
+        d_ident = ld.get(l_ident) if l_ident is not None else None
+        ident_from_iter = bool(d_ident and d_ident[1] is not None and any(x["m"] == "next" for x in hir.nodes(d_ident[1], "mcall")))
+        d_rec = ld.get(l_rec) if l_rec is not None else None
+        ok_init = bool(d_rec and d_rec[1] is not None and hir.strip(d_rec[1]).get("v") is True and not (d_rec[2] and d_rec[2][0] == "arm"))
+        call_ok = pidx.get(l_scope) == 1 and ident_from_iter and l_rec is not None and l_rec not in pidx
         for a in hir.nodes(lp, "assign"):
-            if names(a["lhs"]) == {"recurse"} and hir.strip(a["rhs"]).get("v") is False:
+            ll = hir.res_local(hir.peel_refs(hir.strip(a["lhs"])))
+            if ll is not None and ll == l_rec and hir.strip(a["rhs"]).get("v") is False:
                 found_false = True
-            if names(a["lhs"]) == {"scope"}:
+            if ll is not None and ll == l_scope:
                 # rhs local must be bound by `Some(s) = stub.scope`
-                ld = hir.LocalDefs(b.hir)
                 l = hir.res_local(hir.peel_refs(a["rhs"]))
                 d = ld.get(l) if l is not None else None
                 if d and d[1] is not None:
                     init_e = hir.peel_refs(d[1])
-                    stubs = {c2.get("m") for c2 in hir.nodes(d[1], "mcall")}
                     if init_e.get("k") == "field" and init_e["n"] == "scope":
                         base = hir.peel_refs(init_e["e"])
                         bl = hir.res_local(base)
                         bd = ld.get(bl) if bl is not None else None
                         if bd and bd[1] is not None and any(x["m"] == "resolve_name" for x in hir.nodes(bd[1], "mcall")):
                             found_scope = True
+    r.inst("recurse starts true", {"ok": ok_init})
+    if not ok_init:
+        r.bad(b.path, "recurse init", relfile(b.file), b.line, "the first path segment must be looked up through the enclosing scopes (recurse = true)")
     r.inst("loop", {"resolve_name(scope, ident, recurse)": call_ok, "recurse=false before back edge": found_false, "scope fed back from found declaration": found_scope})
     if not call_ok:
         r.bad(b.path, "call", relfile(b.file), b.line, "the loop must call resolve_name(scope, ident, recurse)")
@@ -265,6 +272,40 @@ def rule_r6(F):
     return r
 
 
+LEXICAL = ("Block", "Then", "Else", "WhileBody", "ForBody", "MatchArm")
+
+
+def rule_r7(F):
+    """Lexical scoping: the scope of a block, branch, loop body or match arm is a child of the scope in which the enclosing
+    expression is checked - never of a sibling's scope (an else branch must not see the then branch's lets and imports)."""
+    r = RuleResult("C13.R7", "scopes of blocks, branches, loop bodies and match arms are children of the scope the expression is checked in", floor=8)
+    for b in F.all_bodies():
+        if not b.mir or "::tests::" in b.path or not b.file.startswith("src/typechecker/"):
+            continue
+        defs = None
+        for bi, t in mir.calls(b):
+            if not mir.callee(t).endswith("ScopeGraph::wrap") or len(t["args"]) < 3:
+                continue
+            defs = defs or mir.Defs(b)
+            kind = None
+            if mir.is_place_op(t["args"][2]):
+                for d in defs.whole_defs(t["args"][2][1][0]):
+                    if d[2] == "assign" and d[3]["rv"]["k"] == "agg":
+                        kind = d[3]["rv"].get("variant")
+            if kind not in LEXICAL:
+                continue
+            parent = mir.origin_key(b, defs, t["args"][1][1]) if mir.is_place_op(t["args"][1]) else "const"
+            ok = False
+            if parent.startswith("arg") and parent[3:].isdigit():
+                ok = "ScopeRef" in b.mir["locals"][int(parent[3:])]["ty"]
+            n = sum(1 for k in r.instances if k.startswith("%s %s" % (hir.last(b.path), kind)))
+            r.inst("%s %s #%d" % (hir.last(b.path), kind, n), {"fn": b.path, "line": t["line"], "scope_type": kind, "parent": parent})
+            if not ok:
+                r.bad(b.path, "%s scope #%d parent" % (kind, n), relfile(b.file), t["line"],
+                      "the %s scope is made a child of `%s` instead of the scope the expression is checked in: names declared or imported in a sibling scope become visible here (and shadow the outer ones)" % (kind, parent))
+    return r
+
+
 def rules(ctx):
     F = ctx["F"]
-    return [rule_r1(F), rule_r2(F), rule_r3(F), rule_r4(F), rule_r5(F), rule_r6(F)]
+    return [rule_r1(F), rule_r2(F), rule_r3(F), rule_r4(F), rule_r5(F), rule_r6(F), rule_r7(F)]
